@@ -71,6 +71,14 @@ def full_alphabet(ctx, keys, grid, vals):
             ops.append((ip, 'list', tuple(keys[::2])))
             ops.append((ip, 'same', tuple(keys[1::2])))
             ops.append((ip, 'list', tuple(keys[:1])))
+        # plain iterables are neither sorted nor duplicate-free: descending order (the rebuild order
+        # of `&=` shows in the shape), a key twice (as many hits as a two-key set has members)
+        rev = tuple(reversed(keys))
+        for ip in ('ior', 'iand', 'isub', 'ixor'):
+            ops.append((ip, 'list', rev))
+            ops.append((ip, 'list', rev[1:] + rev[1:2]))
+            ops.append((ip, 'list', (keys[0], keys[0])))
+        ops.append(('update', 'list', rev[1:] + rev[1:2]))
     return ops
 
 
